@@ -387,6 +387,23 @@ class Export(object):
                 # original dataset, we also create a new basin that
                 # refers to the original dataset itself.
                 basin_list = [bn.as_dict() for bn in ds.basins]
+                if ds.format == "hierarchy" and basin_list:
+                    # avoid circular imports
+                    from .fmt_hierarchy import map_indices_child2root
+                    # The upstream basins are defined for the root parent
+                    # of the hierarchy. Their mapping must be translated
+                    # to the events of this (child) dataset.
+                    idx_root = map_indices_child2root(
+                        child=ds,
+                        child_indices=np.arange(len(ds)))
+                    for bn_dict in basin_list:
+                        if bn_dict.get("basin_type") == "internal":
+                            continue
+                        bm_root = bn_dict.get("basin_map")
+                        if bm_root is None:
+                            bn_dict["basin_map"] = idx_root
+                        else:
+                            bn_dict["basin_map"] = bm_root[idx_root]
                 # In addition to the upstream basins, also store a reference
                 # to the original file from which the export was done.
                 if ds.format in get_basin_classes():
